@@ -31,8 +31,14 @@ structure Fits (reg : Reg W) (P : List (Genome W)) (g : Genome W) : Prop where
   nodes : ∀ b ∈ P, NodeLineage g b
   head : ∀ b ∈ P, SharedHead g b
 
+instance (reg : Reg W) (P : List (Genome W)) (g : Genome W) : Decidable (Fits reg P g) :=
+  if h : WFT g ∧ g.modules = [] ∧ RegInv reg g ∧ HeadBelowRecords reg g ∧ (∀ b ∈ P, NodeLineage g b) ∧ (∀ b ∈ P, SharedHead g b)
+  then isTrue ⟨h.1, h.2.1, h.2.2.1, h.2.2.2.1, h.2.2.2.2.1, h.2.2.2.2.2⟩
+  else isFalse (fun f => h ⟨f.wft, f.nomod, f.rinv, f.hbr, f.nodes, f.head⟩)
+
 /-- every member of the pool fits into the pool -/
 def PoolOk (reg : Reg W) (P : List (Genome W)) : Prop := ∀ g ∈ P, Fits reg P g
+instance (reg : Reg W) (P : List (Genome W)) : Decidable (PoolOk reg P) := by unfold PoolOk; infer_instance
 
 omit [Scalar W] in
 theorem PoolOk.add {reg : Reg W} {P : List (Genome W)} {c : Genome W} (hP : PoolOk reg P) (hc : Fits reg P c) :
